@@ -451,6 +451,25 @@ def chk_purity(T, v, M, rng):
         return out, n
     if snapshot(spec) != s_spec0:
         out.append(fail('purity', T, v, 'decoding changed the guiding type object'))
+    # ... also when a caller-supplied collector (substrateFun) fills in and hands back the object it is offered
+    if T['k'] in ('SEQUENCE', 'SET', 'SEQUENCEOF', 'SETOF'):
+        n += 1
+
+        def collector(asn1Object, substrate, length, options):
+            substrate.read(length)
+            if hasattr(asn1Object, 'clear'):
+                asn1Object.clear()
+            yield asn1Object
+        try:
+            for enc_ in (e, be.encode(val, defMode=False)):
+                c1, _ = bd.decode(enc_, asn1Spec=spec, substrateFun=collector)
+                if c1 is spec:
+                    out.append(fail('purity', T, v, 'a collector (substrateFun) is handed the guiding type object itself'))
+                    break
+        except Exception:
+            pass
+        if snapshot(spec) != s_spec0:
+            out.append(fail('purity', T, v, 'decoding with a collector (substrateFun) changed the guiding type object'))
     # ... the native codec as well (python tree -> value object under the same guiding type)
     if no_any(T):
         try:
@@ -502,6 +521,35 @@ def chk_purity(T, v, M, rng):
             out.append(fail('purity', T, v, 'interleaved streaming decoders disagree with decoding alone'))
     except Exception as ex:
         out.append(fail('purity', T, v, 'interleaved streaming decoders raised %s: %s' % (type(ex).__name__, str(ex)[:100])))
+    # 3b. debug logging switched on (off) while a streaming decoder is suspended: the object still comes out
+    if len(e) > 2:
+        for first_on in (False, True):
+            n += 1
+            from pyasn1 import debug as debug_
+            try:
+                from standins.stream_checks import Feed
+                st = Feed()
+                st.feed(e[:len(e) // 2])
+                debug_.setLogger(debug_.Debug('all', printer=lambda *a_: None) if first_on else None)
+                it_ = iter(bd.StreamingDecoder(st, asn1Spec=spec))
+                first_ = next(it_)
+                if not isinstance(first_, error.SubstrateUnderrunError):
+                    raise RuntimeError('half an encoding gave %r' % (first_,))
+                debug_.setLogger(None if first_on else debug_.Debug('all', printer=lambda *a_: None))
+                st.feed(e[len(e) // 2:])
+                st.finish()
+                got_ = next(it_)
+                while isinstance(got_, error.SubstrateUnderrunError):
+                    got_ = next(it_)
+                if de.encode(got_) != d0:
+                    out.append(fail('purity', T, v, 'a decoder suspended while logging was switched %s gives another value' % (
+                        'off' if first_on else 'on')))
+            except Exception as ex:
+                out.append(fail('purity', T, v, 'a decoder suspended while logging was switched %s raised %s: %s' % (
+                    'off' if first_on else 'on', type(ex).__name__, str(ex)[:80])))
+            finally:
+                debug_.setLogger(None)
+                del debug_.scope._list[:]
     # 4. debug logging on/off: the same calls, the same outcomes (values, remainders, errors)
     n += 1
     from pyasn1 import debug
